@@ -1,17 +1,14 @@
-SPECIFICATION Spec
+SPECIFICATION TSpec
 CONSTANTS
-  NObj = 3
-  MaxId = 2
-  Nss = {1}
+  NObj = 0
+  MaxId = 0
+  Nss = {1, 2}
   Maxes <- MaxesSmall
-  Kinds = {1, 2}
+  Kinds = {1}
   Toggles = TRUE
   DefaultMax = 2
   LegacyPullZero = FALSE
   LegacyTrimRaw = FALSE
   GenDepth = 0
   Cover = FALSE
-INVARIANT ImplRefinesReq
-INVARIANT MappingHolds
-INVARIANT SessionHolds
 CHECK_DEADLOCK FALSE
